@@ -16,6 +16,8 @@ pub struct Foreign {
     pub words: usize,
     pub padding: u8,
     pub fill: u8,
+    /// report "no padding" as `Some(0)` instead of `None` (both mean that none is requested)
+    pub some_zero: bool,
 }
 
 impl RtcpPacketWriter for Foreign {
@@ -38,7 +40,11 @@ impl RtcpPacketWriter for Foreign {
     }
     fn get_padding(&self) -> Option<u8> {
         if self.padding == 0 {
-            None
+            if self.some_zero {
+                Some(0)
+            } else {
+                None
+            }
         } else {
             Some(self.padding)
         }
@@ -54,11 +60,13 @@ struct Alone {
     padded: bool,
 }
 
-fn alone<W: RtcpPacketWriter>(w: &W) -> Alone {
+/// `padding` is the padding the member was *configured* with (for a nested compound: that of
+/// its last member); the crate's own `get_padding` is not consulted by the oracle.
+fn alone<W: RtcpPacketWriter>(w: &W, padding: u8) -> Alone {
     let mut img = [0u8; MB];
     let r = w.write_into(&mut img);
     assert!(!matches!(r, Err(RtcpWriteError::OutputTooSmall(_))), "HARNESS: member image buffer too small");
-    Alone { r, img, padded: w.get_padding().unwrap_or(0) > 0 }
+    Alone { r, img, padded: padding > 0 }
 }
 
 fn same_packet(a: &Result<Packet<'_>, RtcpParseError>, b: &Result<Packet<'_>, RtcpParseError>) {
@@ -196,7 +204,7 @@ pub fn empty<S: Src>(s: &mut S) {
 
 pub fn rr_bye<S: Src, const PARSE: bool, const K: usize>(s: &mut S) {
     let (a, b) = (draw_rr(s), draw_bye(s));
-    let m = [alone(&a.builder()), alone(&b.builder())];
+    let m = [alone(&a.builder(), a.padding), alone(&b.builder(), b.padding)];
     let c = Compound::builder().add_packet(a.builder()).add_packet(b.builder());
     check::<S, 2, K>(s, &c, &m, PARSE);
     forget(c);
@@ -204,7 +212,7 @@ pub fn rr_bye<S: Src, const PARSE: bool, const K: usize>(s: &mut S) {
 
 pub fn bye_app<S: Src, const PARSE: bool, const K: usize>(s: &mut S) {
     let (a, b) = (draw_bye(s), draw_app(s));
-    let m = [alone(&a.builder()), alone(&b.builder())];
+    let m = [alone(&a.builder(), a.padding), alone(&b.builder(), b.padding)];
     let c = Compound::builder().add_packet(a.builder()).add_packet(b.builder());
     check::<S, 2, K>(s, &c, &m, PARSE);
     forget(c);
@@ -212,7 +220,7 @@ pub fn bye_app<S: Src, const PARSE: bool, const K: usize>(s: &mut S) {
 
 pub fn app_sr_unknown<S: Src>(s: &mut S) {
     let (a, b, u) = (draw_app(s), draw_sr(s), draw_unknown(s));
-    let m = [alone(&a.builder()), alone(&b.builder()), alone(&u.builder())];
+    let m = [alone(&a.builder(), a.padding), alone(&b.builder(), b.padding), alone(&u.builder(), u.padding)];
     let c = Compound::builder().add_packet(a.builder()).add_packet(b.builder()).add_packet(u.builder());
     check::<S, 3, 2>(s, &c, &m, false);
     forget(c);
@@ -220,7 +228,7 @@ pub fn app_sr_unknown<S: Src>(s: &mut S) {
 
 pub fn unknown_rr<S: Src, const PARSE: bool>(s: &mut S) {
     let (u, a) = (draw_unknown(s), draw_rr(s));
-    let m = [alone(&u.builder()), alone(&a.builder())];
+    let m = [alone(&u.builder(), u.padding), alone(&a.builder(), a.padding)];
     let c = Compound::builder().add_packet(u.builder()).add_packet(a.builder());
     check::<S, 2, 0>(s, &c, &m, PARSE);
     forget(c);
@@ -228,7 +236,7 @@ pub fn unknown_rr<S: Src, const PARSE: bool>(s: &mut S) {
 
 pub fn single<S: Src>(s: &mut S) {
     let a = draw_app(s);
-    let m = [alone(&a.builder())];
+    let m = [alone(&a.builder(), a.padding)];
     let c = Compound::builder().add_packet(a.builder());
     check::<S, 1, 0>(s, &c, &m, true);
     forget(c);
@@ -241,7 +249,7 @@ pub fn fb_wrapped<S: Src>(s: &mut S) {
     let sli = SliCfg::<1>::draw(s).builder();
     let b = draw_bye(s);
     let mk = || PayloadFeedback::builder(&sli).sender_ssrc(fbc.sender).media_ssrc(fbc.media).padding(fbc.padding);
-    let m = [alone(&mk()), alone(&b.builder())];
+    let m = [alone(&mk(), fbc.padding), alone(&b.builder(), b.padding)];
     let c = Compound::builder().add_packet(mk()).add_packet(PacketBuilder::from(b.builder()));
     check::<S, 2, 0>(s, &c, &m, false);
     forget(c);
@@ -255,9 +263,9 @@ pub fn sdes_member<S: Src, const LAST: bool>(s: &mut S) {
     let a = draw_rr(s);
     let mk = || Sdes::builder().padding(pad).add_chunk(SdesChunk::builder(ssrc).add_item(SdesItem::builder(SdesItem::CNAME, "ab")));
     let (m, c) = if LAST {
-        ([alone(&a.builder()), alone(&mk())], Compound::builder().add_packet(a.builder()).add_packet(mk()))
+        ([alone(&a.builder(), a.padding), alone(&mk(), pad)], Compound::builder().add_packet(a.builder()).add_packet(mk()))
     } else {
-        ([alone(&mk()), alone(&a.builder())], Compound::builder().add_packet(mk()).add_packet(a.builder()))
+        ([alone(&mk(), pad), alone(&a.builder(), a.padding)], Compound::builder().add_packet(mk()).add_packet(a.builder()))
     };
     check::<S, 2, 1>(s, &c, &m, false);
     forget(c);
@@ -268,10 +276,10 @@ pub fn nested_foreign<S: Src>(s: &mut S) {
     let a = RrCfg::<0>::draw(s);
     s.assume(a.padding <= 8);
     let b = draw_bye(s);
-    let f = Foreign { words: s.upto(2), padding: s.u8(), fill: s.u8() };
+    let f = Foreign { words: s.upto(2), padding: s.u8(), fill: s.u8(), some_zero: s.bool() };
     s.assume(f.padding <= 8);
     let inner = || Compound::builder().add_packet(a.builder()).add_packet(f);
-    let m = [alone(&inner()), alone(&b.builder())];
+    let m = [alone(&inner(), f.padding), alone(&b.builder(), b.padding)];
     let c = Compound::builder().add_packet(inner()).add_packet(b.builder());
     // the nested compound is two tiles on the wire: compare bytes, size and acceptance only
     let i = s.upto(2 * MB);
@@ -297,7 +305,20 @@ pub fn nested_foreign<S: Src>(s: &mut S) {
     forget(c);
 }
 
+/// A third-party writer in a non-last position, reporting "no padding" as `None` or `Some(0)`.
+pub fn foreign_first<S: Src>(s: &mut S) {
+    let f = Foreign { words: s.upto(2), padding: s.u8(), fill: s.u8(), some_zero: s.bool() };
+    s.assume(f.padding <= 8);
+    let a = draw_rr(s);
+    let m = [alone(&f, f.padding), alone(&a.builder(), a.padding)];
+    let c = Compound::builder().add_packet(f).add_packet(a.builder());
+    check::<S, 2, 0>(s, &c, &m, false);
+    vcover!(f.padding == 0 && f.some_zero, "Some(0) in a non-last position");
+    forget(c);
+}
+
 common::register! {
+    q_foreign_first = foreign_first => 4,
     q_empty = empty => 2,
     q_single = single => 3,
     q_rr_bye = rr_bye::<_, false, 0> => 4,
